@@ -30,6 +30,26 @@ claims = {
          "and that Put reserves the logical size before writing and overwriting queues the predecessor only inside Add (after the new file is complete).",
          TRUST + "Recency order is the ghost sequence c.ll.seq specified through the assumed contracts of container/list.",
          "contract-based deductive verification: call-site assertions + loop invariants over a ghost recency sequence"),
+ "C06": ("Deductive proof that GetValidatedActionResult hands every blob the stored ActionResult refers to - each output file without inline contents, the Tree blob of each output directory "
+         "(fetched with the digest's own size and the returned size compared), every file node with a digest in the Tree's root and in every child directory, stdout and stderr - to the fail-fast "
+         "presence check (loop invariants over an arbitrary element of each of the five traversals, ghost content set of the pending slice), that the check is called in fail-fast mode, that "
+         "findMissingCasBlobsInternal(failFast) returns nil only if no blob was found missing (local: every slot nil-ed by an index hit with equal size or the empty blob; backend: the fail-fast "
+         "flag is false after all workers finished - the obligation that exposed the select race fixed in /repo), that a local hit refreshes recency (lookups only through SizedLRU.Get: encapsulation census), "
+         "and that a missing blob yields (nil,nil,nil), not an error.",
+         TRUST + "ASSUMED: protobuf unmarshalling yields no nil elements in repeated fields; worker goroutines are not interleaved (their effect on the fail-fast flag is modelled by havoc at yield points). "
+         "Not decided: the HTTP/gRPC mapping of a miss to 404/NotFound (server/ not yet under contract), presence 'in the backend' beyond proxy.Contains.",
+         "contract-based deductive verification: arbitrary-element loop invariants, call-site assertions, ghost content sets"),
+ "C10": ("Deductive proof of exact functional contracts: filterNonNil returns precisely the non-nil elements in order with duplicates kept (count == number of non-nil, j-th survivor at position nncount(j)); "
+         "findMissingLocalCAS nils slot k iff digest k is the empty blob or is indexed with the stated size (one critical section, for every list length), counts the rest exactly and touches nothing outside its chunk; "
+         "findMissingCasBlobsInternal visits every element exactly once for every length (batching invariant, chunk aliasing asserted at the call site); Contains/isSizeMismatch exact size comparison; "
+         "oversize digests are never queued for the backend.",
+         TRUST + "Not decided: lost updates between backend worker goroutines and the final filter (needs the happens-before of wg.Wait, assumed); the gRPC wrapper in server/ is not yet under contract.",
+         "contract-based deductive verification: functional postconditions with a counting spec function, quantified loop invariants over absolute array positions"),
+ "C11": ("Deductive proof that validate.ActionResult is sound AND complete for validAR - a predicate written from the property (non-nil elements, non-empty relative paths, non-nil digests with non-negative size and "
+         "64-hex hash, optional stdout/stderr digests well formed) - for all messages (arbitrary-element invariants over the five lists), and that GetValidatedActionResult validates what it returns.",
+         TRUST + "hex64 is the uninterpreted meaning of HashKeyRegex; protobuf (un)marshalling assumed. NOT yet under contract: the store side (UpdateActionResult, HTTP PUT validate-before-store), "
+         "worker metadata and inlining in server/ - the claim covers the validator and the read path only.",
+         "contract-based deductive verification: soundness and completeness postconditions of the validator"),
  "C07": ("Deductive proof of the lock discipline and of index/accounting integrity under all interleavings of critical sections: every SizedLRU method is called with diskCache.mu held "
          "(precondition at every call site), every function returns with the mutex released on every path, no path locks twice, the invariant is re-established at every Unlock, and nothing learnt in "
          "one critical section is used in a later one without re-validation (Lock havocs the protected state) - this is the obligation that exposed the stale-element removal fixed in eda5fe3.",
